@@ -335,7 +335,7 @@ func checkDateTimeCore(c dCase) (site, msg string) {
 			}
 		}
 		drv.Push(s)
-		rec.waitCount(1, time.Second)
+		rec.waitCount(1, 30*time.Second)
 		// the same controller again with its clock a little less than a day back, then a little less than a day on (a clock
 		// that was corrected between two events, events replayed from the store): every event is decoded on its own
 		var laterTexts []string
@@ -349,7 +349,7 @@ func checkDateTimeCore(c dCase) (site, msg string) {
 			s2[toff], s2[toff+1], s2[toff+2] = bcd(at.Hour()), bcd(at.Minute()), bcd(at.Second())
 			laterTexts = append(laterTexts, fmt.Sprintf("%04d-%02d-%02d %02d:%02d:%02d", at.Year(), int(at.Month()), at.Day(), at.Hour(), at.Minute(), at.Second()))
 			drv.Push(s2)
-			rec.waitCount(k+2, time.Second)
+			rec.waitCount(k+2, 30*time.Second)
 		}
 		close(q)
 		<-done
@@ -527,6 +527,21 @@ func sweep(yield func(dCase) bool) {
 					if !yield(dCase{Zone: z, Kind: "datetime", Y: y, M: md[0], D: md[1], H: hms[0], Mi: hms[1], S: hms[2]}) {
 						return
 					}
+				}
+			}
+		}
+		// the zone's own reading of the instants that mean something to a program - the zero time.Time, the Unix epoch, the ends of
+		// 32-bit second counts - and their neighbours: to the controller they are civil times like any other
+		for _, inst := range []time.Time{{}, time.Unix(0, 0), time.Unix(1<<31, 0), time.Unix(1<<31-1, 0), time.Unix(1<<32, 0), time.Unix(-(1 << 31), 0), time.Unix(253402300799, 0)} {
+			for _, delta := range []time.Duration{0, -time.Second, time.Second} {
+				w := inst.Add(delta).In(loc)
+				if w.Year() < 1 || w.Year() > 9999 || w.IsZero() {
+					// (the zone's reading of the ZERO instant itself - one civil second per zone, in the year 1 - is not judged: the zero
+					// time.Time is the library's 'no value', its own IsZero / String / JSON cannot tell the two apart; section 3 rule 1)
+					continue
+				}
+				if !yield(dCase{Zone: z, Kind: "datetime", Y: w.Year(), M: int(w.Month()), D: w.Day(), H: w.Hour(), Mi: w.Minute(), S: w.Second()}) {
+					return
 				}
 			}
 		}
